@@ -193,12 +193,12 @@ def run_systematic(case: Dict[str, Any]) -> Dict[str, Any]:
     cnt: collections.Counter = collections.Counter()
     sets: Dict[str, set] = collections.defaultdict(set)
 
-    def violate(prop, mech, msg, **w):
+    def violate(prop, mechanism, msg, **w):
         if prop not in props:
             return
-        vcount[(prop, mech)] += 1
-        if vcount[(prop, mech)] <= 3:
-            viol.append({"property": prop, "mechanism": mech, "message": msg, "step": None, "witness": {k: (v if isinstance(v, (int, float, str, bool, list, type(None))) else repr(v)[:500]) for k, v in w.items()}})
+        vcount[(prop, mechanism)] += 1
+        if vcount[(prop, mechanism)] <= 3:
+            viol.append({"property": prop, "mechanism": mechanism, "message": msg, "step": None, "witness": {k: (v if isinstance(v, (int, float, str, bool, list, type(None))) else repr(v)[:500]) for k, v in w.items()}})
 
     def count(k, n=1):
         cnt[k] += n
